@@ -148,6 +148,9 @@ def run(ctx, res):
     for o in outs:
         if o.kind != "panic":
             continue
+        if any(t_ in o.state.tags for t_ in ("opaque-assert", "unknown-callee", "unwrap-opaque")):
+            res.errors.append("imprecise trace in run (panic branch): %r" % (o.state.tags,))
+            continue
         care = Mx.AND(o.state.pc, pre)
         if care == 0:
             res.ob(True)
@@ -259,25 +262,27 @@ def run(ctx, res):
                     res.finding("cost-context|%s|line%s" % (k.split("::")[-1], t["ln"]), "%s passes (kind %s, count %r) to the cost function: the count is not a constant whose charge fits 8 bits" % (k, kname, cnt))
     res.inventory["cost_call_sites"] = ncost
     res.floor("cost-function call sites", ncost, 240)
-    # (d) re-entrancy
-    k_write = facts.body("bus::Bus::write")["key"]
-    for nm in ("update_modules", "write_registers"):
-        kk = facts.find(nm)[0]
-        okk = k_write not in cg.reachable(kk)
-        res.ob(okk)
-        if not okk:
-            res.finding("reentrancy|%s" % nm, "Bus::write is reachable from %s while the module manager is mutably borrowed (RefCell panic): %s" % (nm, " -> ".join(cg.path(kk, k_write))))
-    bsites = []
+    # (d) re-entrancy: while a RefCell<T> is borrowed, nothing that runs under the borrow (the T methods called by the
+    # borrowing body) may reach a body that borrows a RefCell<T> again - wherever the borrow sites are
+    import re as _re
+    sites = {}      # inner type -> set of bodies that borrow it
     for k in reach:
         for bl in facts.bodies[k]["blocks"]:
             t = bl["term"]
-            if t["k"] == "call" and (t["callee"]["path"] or "").endswith("RefCell::<T>::borrow_mut"):
-                bsites.append(k)
-    res.inventory["borrow_mut_sites"] = sorted(set(bsites))
-    okk = set(bsites) <= {k_run, k_write}
-    res.ob(okk)
-    if not okk:
-        res.finding("reentrancy|sites", "borrow_mut is called in %r (only run and Bus::write are analysed for re-entrancy)" % sorted(set(bsites)))
+            if t["k"] == "call" and _re.search(r"RefCell::<T>::(try_)?borrow(_mut)?$", t["callee"]["path"] or ""):
+                m_ = _re.search(r"RefCell::<(.+)>::(?:try_)?borrow", t["callee"].get("full") or "")
+                sites.setdefault(m_.group(1) if m_ else "?", set()).add(k)
+    res.inventory["refcell_borrow_sites"] = {k_: sorted(v_) for k_, v_ in sites.items()}
+    for inner, bodies_ in sites.items():
+        for k in sorted(bodies_):
+            under = sorted(set(t["callee"]["path"] for bl in facts.bodies[k]["blocks"] for t in [bl["term"]]
+                               if t["k"] == "call" and (t["callee"]["path"] or "") in facts.bodies and (t["callee"]["path"] or "").startswith(inner + "::")))
+            for callee in under:
+                hit = [b_ for b_ in cg.reachable(callee) if b_ in bodies_]
+                res.ob(not hit)
+                if hit:
+                    res.finding("reentrancy|%s" % callee.split("::")[-1], "%s runs while RefCell<%s> is borrowed by %s and reaches %s, which borrows it again (BorrowMutError panic): %s"
+                                % (callee, inner, k, hit[0], " -> ".join(cg.path(callee, hit[0]) or [])))
     # findings
     for src, key, msg, wit in panics:
         res.ob(False)
